@@ -372,6 +372,13 @@ func cmdCheck(args []string) {
 		fmt.Println("unknown property", id)
 		os.Exit(2)
 	}
+	// development aid (never used by a registered command): decide the assertions of sibling properties
+	// that share this property's jobs in the same pass, e.g. VERIF_EXTRA_PREFIXES=C01.,C04.
+	if extra := os.Getenv("VERIF_EXTRA_PREFIXES"); extra != "" {
+		cp := *spec
+		cp.AssertPrefix = append(append([]string{}, spec.AssertPrefix...), strings.Split(extra, ",")...)
+		spec = &cp
+	}
 	workDir := filepath.Join(verifDir, ".work", id)
 	if repoRoot != "/repo" {
 		workDir = filepath.Join(scratchDir, "work", id)
